@@ -7,6 +7,7 @@ from ..lin import Lin
 from ..avals import *   # noqa
 from ..avals import value_tags
 from ..decide import benign_unknown, Runs, need_ge0, need_eq0, definite, soft
+from . import common
 from ..report import Ob, PROVED, REFUTED, UNDECIDED, func_where, ASSUMPTIONS, Failure
 from ..model import norm_text, AnalysisError
 from .. import seqops
@@ -173,6 +174,10 @@ def check(prog, res, tier):
         return fails
     res.add(runs4.judge('C13.b', 'format 4: 4, hex length digit, PIN, A fill to 16 digits, then the 64-bit random value as 16 hex digits',
                         func_where(tb4), "binascii.unhexlify(f'{\"4\" + <len nibble> + self.pin:a<16}{self.random_value:016x}')", chk4))
+
+    for ob in common.state_obs(res, 'C13.a', func_where(tb4), [('Iso0PinBlock.to_bytes', runs0), ('Iso4PinBlock.to_bytes', runs4)],
+                               'PIN block construction'):
+        res.add(ob)
 
     # ---------------- C13.c inverse agreement
     for cls, fmtname in ((c0, 'format 0'), (c4, 'format 4')):
